@@ -13,6 +13,13 @@
 (*                     equal and the RFC 9207 check passing                    *)
 (*   PreregBoundToIssuer  the pre-registered client id never travels to an     *)
 (*                     authorization server with another issuer                *)
+(*   NoFallbackAfterRejected  the predefined ("server without metadata")       *)
+(*                     endpoints of an authorization server are used (request *)
+(*                     or authorization URL) only if every metadata document   *)
+(*                     that server answered with at one of its well-known      *)
+(*                     locations is matching / PKCE / script-free: the decision*)
+(*                     "no metadata" rests on those answers, a document that   *)
+(*                     fails a check is not "no metadata"                      *)
 (*   NoTokenAfterFailure  TokenSource() changed only if none of those failed   *)
 (* The relation of an issuer identifier to the expected one (`match` of a     *)
 (* served document, `pre` of a request carrying pre-registered credentials)  *)
@@ -23,8 +30,8 @@
 EXTENDS VerifTrace, FiniteSets
 
 F == INSTANCE OAuthFlow WITH pc <- "", ch <- "", mcp <- "", plist <- <<>>, idx <- 0, srv <- 0, asm <- 0,
-       client <- "", pre <- "", ares <- 0, tokq <- "", result <- "", ts <- "", requested <- {}, used <- {},
-       exchanged <- FALSE, credsTo <- {}, failed <- FALSE
+       client <- "", pre <- "", ares <- 0, tokq <- "", result <- "", ts <- "", cause <- "", requested <- {}, used <- {},
+       served <- {}, predef <- FALSE, exchanged <- FALSE, credsTo <- {}, failed <- FALSE
 
 VARIABLE l
 MInit == l = 1 /\ MarkInit
@@ -44,8 +51,12 @@ Pkce(e) == \A i \in UsedDocs(e) : F!PkceOK(e.served[i])
 NoScript(e) == \A i \in UsedDocs(e) : F!ScriptFree(e.served[i])
 ExchangeOK(e) == Exchanged(e) => AuthOK(e)
 PreregOK(e) == \A p \in CredUses(e) : F!PreOK(p)
+\* authorization servers whose predefined endpoints were used
+PredefAS(e) == {r.as : r \in {x \in Reqs(e) : x.predef}} \cup (IF e.auth.called /\ e.auth.predef THEN {e.auth.as} ELSE {})
+NoFallback(e) == \A i \in DOMAIN e.served :
+                    (e.served[i].kind = "asm" /\ e.served[i].for \in PredefAS(e)) => F!DocOK(e.served[i])
 NoTokenAfterFailure(e) == e.out.changed => /\ OnlySafe(e) /\ Matching(e) /\ Pkce(e) /\ NoScript(e)
-                                           /\ AuthOK(e) /\ PreregOK(e)
+                                           /\ AuthOK(e) /\ PreregOK(e) /\ NoFallback(e)
 
 MNext == /\ l <= NLines /\ l' = l + 1
          /\ LET e == TraceLog[l] IN
@@ -56,6 +67,7 @@ MNext == /\ l <= NLines /\ l' = l + 1
               /\ Check(l, "NoScriptSchemes", NoScript(e))
               /\ Check(l, "ExchangeOnlyIfStateAndIss", ExchangeOK(e))
               /\ Check(l, "PreregBoundToIssuer", PreregOK(e))
+              /\ Check(l, "NoFallbackAfterRejected", NoFallback(e))
               /\ Check(l, "NoTokenAfterFailure", NoTokenAfterFailure(e))
               /\ Check(l, "drift", e.exp.known => /\ e.exp.reqs = e.act
                                                   /\ e.exp.result = e.out.err
